@@ -435,7 +435,10 @@ MUTANTS += [
     dict(prop="C17", name="fast-path-stop-row", file=IFA,
          old="        stop_rows = intervals.stop // indices.characters_per_line", new="        stop_rows = (intervals.stop - 1) // indices.characters_per_line"),
     dict(prop="C17", name="deleted-newline-indices-shifted", file=IFA,
-         old="            tmp = np.delete(tmp, [lenb*(j+1)-1-start_mod\n", new="            tmp = np.delete(tmp, [lenb*(j+1)-1-(start_mod if start_mod < 5 else 0)\n"),
+         old="            tmp = np.delete(tmp, _line_break_positions(lenb, lenc, stop_row-start_row, start_mod, tmp.size))",
+         new="            tmp = np.delete(tmp, _line_break_positions(lenb, lenc, stop_row-start_row, start_mod if start_mod < 5 else 0, tmp.size))"),
+    dict(prop="C17", name="one-byte-per-line-break (original defect of 285ec6d)", file=IFA,
+         old="for j in range(n_rows) for b in range(lenc, lenb) if", new="for j in range(n_rows) for b in range(lenb - 1, lenb) if"),
     dict(prop="C17", name="index-offsets-not-accumulated", file=IFA,
          old="                 idx.start+offset,", new="                 idx.start+offsets[0],"),
     dict(prop="C17", name="whole-contig-row-count", file=IFA,
